@@ -11,6 +11,8 @@ let () =
   | _ :: "joint" :: _ -> R_joint.run ()
   | _ :: "exc" :: _ -> R_exc.run ()
   | _ :: "thread" :: _ -> R_thread.run ()
+  | _ :: "ordered" :: "small" :: _ -> R_ordered.run_small ()
+  | _ :: "ordered" :: _ -> R_ordered.run_ord ()
   | _ :: "compose" :: "fb" :: _ -> R_compose.run_fb ()
   | _ :: "compose" :: "fbl" :: _ -> R_compose.run_fbl ()
   | _ :: "compose" :: _ -> R_compose.run_fwd ()
